@@ -46,7 +46,7 @@ def new (R : Type) [Scalar R] (ce : CtorEnv) (raw : RawParameters) : Except Err 
     let t := Scalar.abs lat0
     if Scalar.gt t (Ellipsoid.fracPi2 + eps10) then .error .badParam else
     let polar := Scalar.lt (Scalar.abs (t - Ellipsoid.fracPi2)) (eps10 : R)
-    let north := polar && Scalar.gt t 0.0
+    let north := polar && Scalar.gt lat0 0.0
     let equatorial := !polar && Scalar.lt t eps10
     let oblique := !polar && !equatorial
     let p :=
@@ -66,9 +66,8 @@ def new (R : Type) [Scalar R] (ce : CtorEnv) (raw : RawParameters) : Except Err 
     let xi0 := Scalar.asin (q0 / qp)
     let rq := a * Scalar.sqrt (0.5 * qp)
     let d :=
-      if oblique then
+      if oblique || equatorial then
         a * (cosPhi0 / Scalar.sqrt (1.0 - es * sinPhi0 * sinPhi0)) / (rq * Scalar.cos xi0)
-      else if equatorial then Scalar.recip rq
       else a
     let p := p.setReal (S "xi_0") xi0
     let p := p.setReal (S "q0") q0
@@ -120,11 +119,8 @@ def fwd (p : Parsed R) (s : Stored R) (lon lat : R) : R × R :=
     let xi := Scalar.asin (Ancillary.qs (Scalar.sin lat) e / qp)
     let sinXi := Scalar.sin xi
     let cosXi := Scalar.cos xi
-    let b : R :=
-      if oblique then
-        let factor := 1.0 + sinXi0 * sinXi + (cosXi0 * cosXi * cosLon)
-        rq * Scalar.sqrt (2.0 / factor)
-      else 1.0
+    let factor := 1.0 + sinXi0 * sinXi + (cosXi0 * cosXi * cosLon)
+    let b : R := rq * Scalar.sqrt (2.0 / factor)
     (x0 + (b * d) * (cosXi * sinLon),
      y0 + (b / d) * (cosXi0 * sinXi - sinXi0 * cosXi * cosLon))
 
@@ -148,8 +144,8 @@ def inv (p : Parsed R) (s : Stored R) (authalic : Series.Fourier R) (x y : R) : 
   if northPolar || southPolar then
     let sign : R := if northPolar then -1.0 else 1.0
     let rho := Scalar.hypot (x - x0) (y - y0)
-    let denom := a * a * (1.0 - ((1.0 - es) / (2.0 * e)) * Scalar.ln ((1.0 - e) / (1.0 + e)))
-    let xi := (-sign) * (1.0 - rho * rho / denom)
+    let denom := a * a * s.qp
+    let xi := Scalar.asin ((-sign) * (1.0 - rho * rho / denom))
     let lon := lon0 + Scalar.atan2 (x - x0) (sign * (y - y0))
     let lat := Ellipsoid.latitudeInvSeries xi authalic
     some (lon, lat)
